@@ -267,7 +267,16 @@ Proof.
   - intros z d l Hz Hl. destruct (inv_dc _ _ HI z d Hz l Hl) as [H1 H2]. rewrite wf_fixed_spec by exact H2. exact H1.
 Qed.
 
-(* the code as it is: whenever the referral's own TTL stays within 12 h the two coincide *)
+Lemma lineage_wf_fixed : forall acts st, st = run true acts st_init ->
+  (forall e l, In e (st_ans st) -> In l (ae_lin e) -> l_spec l = l_code l /\ l_code l <= l_obs l + l_ttl l) /\
+  (forall z d l, st_dc st z = Some d -> In l (d_lin d) -> l_spec l = l_code l /\ l_code l <= l_obs l + l_ttl l).
+Proof.
+  intros acts st ->. pose proof (reachable_Inv true acts) as HI. split.
+  - intros e l He Hl. destruct (inv_ans _ _ HI e He l Hl) as [_ H2]. split; [apply wf_fixed_spec; exact H2|apply H2].
+  - intros z d l Hz Hl. destruct (inv_dc _ _ HI z d Hz l Hl) as [_ H2]. split; [apply wf_fixed_spec; exact H2|apply H2].
+Qed.
+
+(* the pre-fix variant: whenever the referral's own TTL stays within 12 h the two coincide *)
 Lemma learned_through_short_ttl : forall acts st, st = run false acts st_init ->
   forall e l, In e (st_ans st) -> In l (ae_lin e) -> l_ttl l <= max_ttl -> ae_end e <= l_spec l.
 Proof.
